@@ -188,6 +188,8 @@ type taskState struct {
 	unknown    bool // a command-less task may have completed unobserved
 }
 
+const linkMarker = "\x01link:"
+
 type fileState struct {
 	exists  bool
 	content string
@@ -252,6 +254,10 @@ func execCache(id string, s *ev.Shard, root string, c CacheCase) *rp.Fail {
 		if err := os.Symlink(target, p); err != nil {
 			return &rp.Fail{Sig: "harness", Msg: err.Error()}
 		}
+		if _, isFile := c.Init[target]; !isFile {
+			// a link that leads nowhere is a file-system object of its own: it can be deleted and put back
+			cur[name] = fileState{exists: true, content: linkMarker + target}
+		}
 	}
 	src := c.Source()
 	specs := map[string]TaskSpec{}
@@ -285,6 +291,13 @@ func execCache(id string, s *ev.Shard, root string, c CacheCase) *rp.Fail {
 				return nil
 			}
 			return err
+		}
+		if strings.HasPrefix(ns.content, linkMarker) {
+			_ = os.Remove(p)
+			return os.Symlink(strings.TrimPrefix(ns.content, linkMarker), p)
+		}
+		if strings.HasPrefix(old.content, linkMarker) {
+			_ = os.Remove(p) // writing replaces the link, it does not write through it
 		}
 		return writeFile(root, f, ns.content)
 	}
